@@ -18,6 +18,27 @@ CHECKS = {
    design_ref="DESIGN.md §3 C03"),
 }
 
+CHECKS.update({
+ "C02": dict(
+   category="fault_enumeration",
+   text="The real pipe::DuplexPipe::exchange wired as Tunnel wires it, between four scripted endpoints under tokio's paused clock. Position-coded streams make loss/duplication/reordering visible as a first mismatch offset; the monitor checks content, end-of-stream ordering, clean-end completeness, credit (sum of consume) == bytes accepted == metrics callback, prompt tear-down after each injected fault (read/consume/write/wait_writable/eof/flush error at a chosen call), endpoint release, zero-progress spin bound, and a CPU-clock wedge watchdog. quick: 1.5M small-scope + 30k large (<=256 KiB) seeded cases; thorough: 60M + 1M.",
+   note="Trusted: the scripted mirror endpoints (harness/src/script.rs) honour the Source/Sink contract; real codec/TCP endpoints are covered end to end by other checks (C08/C10/C16). Idle-timer verdicts belong to C14.",
+   technique="runtime monitoring: scripted hostile endpoints + fault injection around the real DuplexPipe under a virtual clock, conservation/ordering oracle over recorded events",
+   design_ref="DESIGN.md §3 C02"),
+ "C06": dict(
+   category="exploration",
+   text="The real http_udp_codec Decoder (driven exactly like DatagramDecoder::read: tail re-queued in front) and Encoder against an independent PROTOCOL.md 6.3/6.4/11.2 codec. Record pool of 13 small kinds (valid v4/v6, empty name/payload, ::1, length 0/1/36, length shorter than name, non-UTF-8 name) enumerated to sequences of 3 (quick) / 4 (thorough) plus seeded sequences with 60-65 KB records; every stream decoded whole, byte-at-a-time, under every 1-cut, every 2-cut (<=130/200 bytes), 3-cuts, field-boundary and seeded cuts (7.6M / 108M decodes). CPU-clock wedge watchdog turns a non-returning decoder into a witness.",
+   note="Trusted: the reference decoder written from PROTOCOL.md; payloads in (64000, 65507] are EITHER.",
+   technique="runtime monitoring: differential + metamorphic (segmentation-invariance) oracle on the real codec, exhaustive small-scope segmentations",
+   design_ref="DESIGN.md §3 C06"),
+ "C14": dict(
+   category="exploration",
+   text="Part A: the real DuplexPipe::exchange under the paused clock with activity patterns placed relative to T (within T, around and exactly at the deadline, bursts/long silences, back-pressure stalls of 0.5T..3T, EOF/silent endings), T in {1,2,5,8} s + 370 us; oracle R1: a TimedOut close needs >= T without data transfer, R2: never more than 2T without any event while still open, endpoints released after the close; 400k (quick) / 20M (thorough) patterns plus a known-idle calibration case. Parts B/C (establishment timeout through the real Tunnel, TLS handshake timeout on loopback) are reported in coverage.parts.",
+   note="Trusted: tokio's paused clock as a model of time order (T carries a 370 us fraction so timer ticks land after the deadline as in real time); gaps in (T, 2T] are EITHER.",
+   technique="runtime monitoring: virtual-clock trace oracle over the real pipe (bounded-liveness restated as close-by-2T)",
+   design_ref="DESIGN.md §3 C14"),
+})
+
 NOT_YET = "check not built yet in this session (designed in DESIGN.md §3; harness work in progress)"
 
 def main():
